@@ -94,6 +94,10 @@ def r18_1(ctx, fx):
                                        if (f.producer(l.args[0]) is not None and f.producer(l.args[0]).matches(r"Multihash(<.*>)?::digest$")))
             is_b = lambda f, o: is_const(fx, f, o, "peer_id::MAX_INLINE_KEY_LENGTH")
             len_edges = {(sw, lab) for sw, lab, rel, cn in guards.edge_facts(fn, is_dlen, is_b) if rel in guards.IMPLIES["<="]}
+            rels = sorted({rel for sw, lab, rel, cn in guards.edge_facts(fn, is_dlen, is_b)})
+            ctx.ob("R18.1", "from_multihash/identity-threshold-is-exactly-len<=MAX_INLINE_KEY_LENGTH", rels == ["<=", ">"], site=fn.site(fn.entry), cfg=fx.cfg,
+                   detail="facts on the edges of the digest-length comparison: %s (accepting `<=`, rejecting `>`: the same boundary as from_public_key_protobuf "
+                          "and the reference, so every id the constructor produces parses back)" % rels)
             ctx.anchor("R18.1", "from_multihash: code==Sha2_256 edge / identity switch edge / len<=MAX edge", min(len(sha_edges), len(id_edges), len(len_edges)), 1, cfg=fx.cfg)
             n_sha = n_id = 0
             for node, s in oks:
